@@ -22,7 +22,14 @@ def handleTlo (ts : String) (ast : String) : String :=
       | .ok out =>
         match encSchema out with
         | none => "err write"
-        | some bs => "ok " ++ hexOfBytes bs ++ " " ++ (out.toSexp (ts == 0)).print
+        | some bs =>
+          -- per-instance certificate of the byte round trip for the whole value (proved in general for type entries)
+          let desc := (out.toSexp (ts == 0)).print
+          match decodeSchema bs with
+          | .ok (back, []) =>
+            if (back.toSexp (ts == 0)).print == desc && encSchema back == some bs then "ok " ++ hexOfBytes bs ++ " " ++ desc
+            else "ok " ++ hexOfBytes bs ++ " MODEL-ROUNDTRIP-DIFFERS"
+          | _ => "ok " ++ hexOfBytes bs ++ " MODEL-DECODE-FAILS"
   | _, _ => "bad-op"
 
 def handleTlsrt (h : String) : String :=
